@@ -72,11 +72,11 @@ Lemma mapR_nseq_build {B} (f : N -> res B) (l : list B) n :
   (forall i v, nth_error l i = Some v -> f (N.of_nat i) = Ok v) ->
   mapR f (nseq n) = Ok l.
 Proof.
-  intros -> H. unfold nseq. rewrite Nat2N.id. apply mapR_seq_build. exact H.
+  intros -> H. rewrite nseq_eq. rewrite Nat2N.id. apply mapR_seq_build. exact H.
 Qed.
 
 Lemma nth_error_nseq n i : (i < N.to_nat n)%nat -> nth_error (nseq n) i = Some (N.of_nat i).
-Proof. intro H. unfold nseq. rewrite nth_error_map, nth_error_seq' by lia. reflexivity. Qed.
+Proof. intro H. rewrite nseq_eq. rewrite nth_error_map, nth_error_seq' by lia. reflexivity. Qed.
 
 Lemma mapO_Forall2 {A B} (f : A -> option B) l r :
   mapO f l = Some r -> Forall2 (fun a b => f a = Some b) l r.
@@ -487,6 +487,82 @@ Proof.
     symmetry. rewrite E1 at 1. rewrite E2 at 1. ring.
 Qed.
 
+(* ---------------- reading the array through its rows ---------------- *)
+
+Lemma nth_error_firstn_lt {A} (l : list A) w x : (x < w)%nat -> nth_error (firstn w l) x = nth_error l x.
+Proof.
+  revert l x. induction w as [|w IH]; intros l x H; [lia|].
+  destruct l as [|a l]; [reflexivity|]. destruct x; simpl; [reflexivity|]. apply IH. lia.
+Qed.
+
+Lemma nth_error_skipn' {A} (l : list A) k x : nth_error (skipn k l) x = nth_error l (k + x).
+Proof.
+  revert l. induction k as [|k IH]; intro l; [reflexivity|].
+  destruct l as [|a l]; simpl; [now destruct x|]. apply IH.
+Qed.
+
+Lemma skipn_skipn' {A} (l : list A) a b : skipn a (skipn b l) = skipn (b + a) l.
+Proof.
+  revert l. induction b as [|b IH]; intro l; [reflexivity|].
+  destruct l as [|x l]; simpl; [now rewrite skipn_nil|]. apply IH.
+Qed.
+
+Lemma chunks_nth fuel w : forall (l : list N) r,
+  (0 < w)%nat -> (length l <= fuel)%nat -> (r * w < length l)%nat ->
+  nth_error (chunks fuel w l) r = Some (firstn w (skipn (r * w) l)).
+Proof.
+  induction fuel as [|f IH]; intros l r Hw Hf Hr; [lia|].
+  destruct l as [|a l]; [simpl in Hr; lia|]. cbn [chunks].
+  destruct r as [|r]; [reflexivity|]. cbn [nth_error].
+  assert (L1 : (length (skipn w (a :: l)) <= f)%nat) by (rewrite skipn_length; simpl length in *; lia).
+  assert (L2 : (r * w < length (skipn w (a :: l)))%nat) by (rewrite skipn_length; simpl length in *; lia).
+  rewrite (IH _ _ Hw L1 L2). rewrite skipn_skipn'. f_equal; f_equal; lia.
+Qed.
+
+Lemma chunks_nth_none fuel w : forall (l : list N) r,
+  (0 < w)%nat -> (length l <= r * w)%nat -> nth_error (chunks fuel w l) r = None.
+Proof.
+  induction fuel as [|f IH]; intros l r Hw Hr; [now destruct r|].
+  destruct l as [|a l]; [now destruct r|]. cbn [chunks].
+  destruct r as [|r]; [simpl in Hr; lia|]. cbn [nth_error].
+  apply IH; [assumption|]. rewrite skipn_length. simpl length in *. lia.
+Qed.
+
+Lemma vol_at_rows vol wx r x : x < wx -> vol_at (rows wx vol) r x = nth_N vol (r * wx + x).
+Proof.
+  intro Hx. unfold vol_at, rows, nth_N.
+  destruct (Nat.lt_ge_cases (N.to_nat r * N.to_nat wx) (length vol)) as [H|H].
+  - rewrite chunks_nth by lia. rewrite nth_error_firstn_lt by lia.
+    rewrite nth_error_skipn'. f_equal. lia.
+  - rewrite chunks_nth_none by lia. symmetry. apply nth_error_None. lia.
+Qed.
+
+Lemma In_firstn' {A} (l : list A) n v : In v (firstn n l) -> In v l.
+Proof.
+  revert l. induction n as [|n IH]; intros l H; [contradiction|].
+  destruct l as [|a l]; [contradiction|]. destruct H as [H|H]; [now left | right; now apply IH].
+Qed.
+
+Lemma In_skipn' {A} (l : list A) n v : In v (skipn n l) -> In v l.
+Proof.
+  revert l. induction n as [|n IH]; intros l H; [exact H|].
+  destruct l as [|a l]; [contradiction|]. right. now apply IH.
+Qed.
+
+Lemma In_chunks fuel w : forall (l row : list N), In row (chunks fuel w l) -> incl row l.
+Proof.
+  induction fuel as [|f IH]; intros l row H; [contradiction|].
+  destruct l as [|a l]; [contradiction|]. cbn [chunks] in H. destruct H as [H|H].
+  - subst row. intros v Hv. eapply In_firstn'; eauto.
+  - intros v Hv. apply (IH _ _ H) in Hv. eapply In_skipn'; eauto.
+Qed.
+
+Lemma vol_at_In vol wx r x v : vol_at (rows wx vol) r x = Some v -> In v vol.
+Proof.
+  unfold vol_at, rows, nth_N. destruct (nth_error (chunks _ _ vol) (N.to_nat r)) as [row|] eqn:E; [|discriminate].
+  intro H. apply nth_error_In in E. apply nth_error_In in H. eapply In_chunks; eauto.
+Qed.
+
 (* ---------------- gather / assemble / crop ---------------- *)
 
 Lemma opt_res_Ok {A} (o : option A) v : opt_res o = Ok v -> o = Some v.
@@ -504,7 +580,7 @@ Qed.
 Lemma gather_nth vol wx wy ox oy oz gx gy gz sbs s :
   gather vol wx wy ox oy oz gx gy gz = Ok sbs -> s < gx * gy * gz ->
   exists vox, nth_N sbs s = Some vox /\
-    sb_vox vol wx wy ox oy oz (s mod gx) ((s / gx) mod gy) (s / (gx * gy)) = Ok vox.
+    sb_vox (rows wx vol) wy ox oy oz (s mod gx) ((s / gx) mod gy) (s / (gx * gy)) = Ok vox.
 Proof.
   intros G Hs. unfold gather in G.
   destruct (mapR_nth _ _ _ (N.to_nat s) s G) as [vox [H1 H2]].
@@ -512,10 +588,10 @@ Proof.
   exists vox. split; [exact H1 | exact H2].
 Qed.
 
-Lemma sb_vox_nth vol wx wy ox oy oz sx sy sz vox i :
-  sb_vox vol wx wy ox oy oz sx sy sz = Ok vox -> i < 512 ->
+Lemma sb_vox_nth rs wy ox oy oz sx sy sz vox i :
+  sb_vox rs wy ox oy oz sx sy sz = Ok vox -> i < 512 ->
   exists v, nth_N vox i = Some v /\
-    nth_N vol (((sz * 8 + oz + i / 64) * wy + (sy * 8 + oy + (i / 8) mod 8)) * wx + (sx * 8 + ox + i mod 8)) = Some v.
+    vol_at rs ((sz * 8 + oz + i / 64) * wy + (sy * 8 + oy + (i / 8) mod 8)) (sx * 8 + ox + i mod 8) = Some v.
 Proof.
   intros G Hi. unfold sb_vox in G.
   destruct (mapR_nth _ _ _ (N.to_nat i) i G) as [v [H1 H2]].
@@ -539,21 +615,21 @@ Lemma assemble_crop_point vol wx wy ox oy oz gx gy gz sbs p :
   gather vol wx wy ox oy oz gx gy gz = Ok sbs -> p < 8 * gx * (8 * gy) * (8 * gz) ->
   let x := p mod (8 * gx) in let y := (p / (8 * gx)) mod (8 * gy) in let z := p / (8 * gx * (8 * gy)) in
   exists vox v, nth_N sbs (sb_of gx gy x y z) = Some vox /\ nth_N vox (loc_of x y z) = Some v /\
-    nth_N vol (((oz + z) * wy + (oy + y)) * wx + (ox + x)) = Some v /\ In v (concat sbs).
+    vol_at (rows wx vol) ((oz + z) * wy + (oy + y)) (ox + x) = Some v /\ In v (concat sbs).
 Proof.
   intros G Hp x y z.
   destruct (pos_coords (8 * gx) (8 * gy) (8 * gz) p Hp) as [Hx [Hy [Hz _]]].
-  fold x in Hx. fold y in Hy. fold z in Hz.
+  fold x in Hx. fold y in Hy. fold z in Hz. clearbody x y z. clear Hp.
   destruct (sb_of_spec gx gy x y z Hx Hy) as [S1 [S2 S3]].
   pose proof (sb_of_lt gx gy gz x y z Hx Hy Hz) as SL.
   destruct (loc_of_spec x y z) as [L1 [L2 [L3 L4]]].
   destruct (gather_nth _ _ _ _ _ _ _ _ _ _ _ G SL) as [vox [V1 V2]].
-  destruct (sb_vox_nth _ _ _ _ _ _ _ _ _ _ _ V2 L4) as [v [W1 W2]].
+  destruct (sb_vox_nth _ _ _ _ _ _ _ _ _ _ V2 L4) as [v [W1 W2]].
   exists vox, v. split; [exact V1|]. split; [exact W1|]. split.
-  - rewrite S1, S2, S3, L1, L2, L3 in W2. rewrite <- W2. f_equal.
-    replace (z / 8 * 8 + oz + z mod 8) with (oz + z) by lia.
-    replace (y / 8 * 8 + oy + y mod 8) with (oy + y) by lia.
-    replace (x / 8 * 8 + ox + x mod 8) with (ox + x) by lia. reflexivity.
+  - rewrite S1, S2, S3, L1, L2, L3 in W2.
+    replace (z / 8 * 8 + oz + z mod 8) with (oz + z) in W2 by (clear; lia).
+    replace (y / 8 * 8 + oy + y mod 8) with (oy + y) in W2 by (clear; lia).
+    replace (x / 8 * 8 + ox + x mod 8) with (ox + x) in W2 by (clear; lia). exact W2.
   - apply in_concat. exists vox. split; eapply nth_error_In; [exact V1 | exact W1].
 Qed.
 
@@ -569,7 +645,7 @@ Proof.
     cbv zeta in *. rewrite H1, H2, H3. reflexivity. }
   destruct (mapR_total (fun p => let x := p mod (8 * gx) in let y := (p / (8 * gx)) mod (8 * gy) in
                                  let z := p / (8 * gx * (8 * gy)) in
-                                 opt_res (nth_N vol (((oz + z) * wy + (oy + y)) * wx + (ox + x))))
+                                 opt_res (vol_at (rows wx vol) ((oz + z) * wy + (oy + y)) (ox + x)))
                        (nseq (8 * gx * (8 * gy) * (8 * gz)))) as [a Ha].
   { intros p Hp. apply In_nseq in Hp.
     destruct (assemble_crop_point _ _ _ _ _ _ _ _ _ _ p G Hp) as [vox [v [_ [_ [H3 _]]]]].
@@ -594,7 +670,8 @@ Proof.
   assert (Hp : N.of_nat i < 8 * gx * (8 * gy) * (8 * gz)).
   { assert (i < length a)%nat by (apply nth_error_Some; congruence). lia. }
   destruct (pos_coords _ _ _ _ Hp) as [_ [_ [_ E]]].
-  rewrite !N.add_0_l, E, nth_N_of_nat, Hi. reflexivity.
+  destruct (pos_coords _ _ _ _ Hp) as [Hx _].
+  rewrite !N.add_0_l, vol_at_rows by exact Hx. rewrite E, nth_N_of_nat, Hi. reflexivity.
 Qed.
 
 (* ---------------- decode (encode a) = a ---------------- *)
@@ -619,10 +696,7 @@ Lemma encode_at_sem tbl vol wx wy wz ox oy oz gx gy gz sbs b :
     Sem tbl (b_nsb b) (b_idx b) (b_vals b) sbs)).
 Proof.
   intros G E. unfold encode_at in E.
-  destruct (4294967295 <=? wx * wy * wz); [discriminate|].
-  destruct ((gx <? 2) || (gy <? 2) || (gz <? 2)); [discriminate|].
-  destruct ((wx <? ox + 8 * gx) || (wy <? oy + 8 * gy) || (wz <? oz + 8 * gz)); [discriminate|].
-  destruct ((n_MaxSubBlockSize <? gx) || (n_MaxSubBlockSize <? gy) || (n_MaxSubBlockSize <? gz)); [discriminate|].
+  destruct (negb (size_checks wx wy wz ox oy oz gx gy gz)); [discriminate|].
   rewrite G in E.
   destruct (gather_lengths _ _ _ _ _ _ _ _ _ _ G) as [_ HF].
   assert (General : forall (Hne : forall l, tbl <> [l]),
@@ -672,10 +746,11 @@ Proof.
     destruct tbl as [|l1 [|l2 tbl']].
     + exfalso. assert (0 < gx * gy * gz).
       { unfold encode_at in E.
-        destruct (4294967295 <=? wx * wy * wz); [discriminate|].
-        destruct ((gx <? 2) || (gy <? 2) || (gz <? 2)) eqn:C2; [discriminate|].
+        destruct (size_checks wx wy wz ox oy oz gx gy gz) eqn:SC; [|discriminate].
+        unfold size_checks in SC. rewrite !andb_true_iff in SC.
+        destruct SC as [[[_ C2] _] _]. apply negb_true_iff in C2.
         apply orb_false_iff in C2 as [C2 C2c]. apply orb_false_iff in C2 as [C2a C2b].
-        apply N.ltb_ge in C2a, C2b, C2c. nia. }
+        apply N.ltb_ge in C2a, C2b, C2c. clear -C2a C2b C2c. nia. }
       destruct (sbs_nonempty gx gy gz sbs GL HF H) as [l Hl]. exact (C l Hl).
     + exfalso. exact (Hne l1 eq_refl).
     + unfold block_sbs. rewrite Ex, Ey, Ez.
@@ -683,8 +758,9 @@ Proof.
       replace (N.of_nat (length (b_nsb b)) <? gx * gy * gz) with false by (symmetry; apply N.ltb_ge; lia).
       rewrite firstn_all2 by lia.
       rewrite <- El in S.
-      rewrite (dec_sbs_sem b _ _ _ _ S [] [] (repeat 0 512%nat) eq_refl eq_refl (repeat_length _ _)).
-      exact A1.
+      pose proof (dec_sbs_sem b _ _ _ _ S [] [] (repeat 0 512%nat) eq_refl eq_refl (repeat_length _ _)) as D.
+      change (N.of_nat (length (@nil N))) with 0 in D. change (8 * 0) with 0 in D.
+      unfold dstate0. rewrite D. exact A1.
 Qed.
 
 (* MakeBlock then MakeLabelVolume *)
@@ -696,8 +772,7 @@ Proof.
   intros L C E. unfold encode in E.
   assert (exists sbs, gather a (8 * gx) (8 * gy) 0 0 0 gx gy gz = Ok sbs) as [sbs G].
   { unfold encode_at in E.
-    destruct (4294967295 <=? _); [discriminate|]. destruct (_ || _ || _); [discriminate|].
-    destruct (_ || _ || _); [discriminate|]. destruct (_ || _ || _); [discriminate|].
+    destruct (negb (size_checks _ _ _ _ _ _ _ _ _)); [discriminate|].
     destruct (gather a (8 * gx) (8 * gy) 0 0 0 gx gy gz) as [sbs| |]; [eauto|discriminate|discriminate]. }
   destruct (assemble_gather _ _ _ _ _ _ _ _ _ _ G) as [a' [_ [A2 [_ A4]]]].
   rewrite (crop_whole a gx gy gz L) in A2. apply Ok_inj in A2. subst a'.
@@ -710,7 +785,7 @@ Proof.
     destruct (Forall2_nth_error_r _ _ _ _ _ (mapR_Forall2 _ _ _ G) Hs) as [s' [_ Hs']].
     unfold sb_vox in Hs'.
     destruct (Forall2_nth_error_r _ _ _ _ _ (mapR_Forall2 _ _ _ Hs') Hi) as [i' [_ Hi']].
-    apply opt_res_Ok in Hi'. unfold nth_N in Hi'. eapply nth_error_In; eauto. }
+    apply opt_res_Ok in Hi'. eapply vol_at_In; eauto. }
   destruct (decode_encode_at _ _ _ _ _ _ _ _ _ _ _ _ _ G Cv E) as [a' [A2' D]].
   rewrite (crop_whole a gx gy gz L) in A2'. apply Ok_inj in A2'. now subst a'.
 Qed.
